@@ -20,6 +20,8 @@ import (
 	"syscall"
 	"time"
 
+	"github.com/dolthub/dolt/go/libraries/utils/verifhook"
+
 	"verif/rig"
 	"verif/sqlrig"
 )
@@ -246,6 +248,7 @@ type childStep struct {
 	Graph    string `json:"graph,omitempty"`    // with FP: comma-separated extra commit heads / ref names whose graph + rows are read
 	WaitFile string `json:"waitfile,omitempty"` // instead of SQL: spin until this file exists (barrier between processes)
 	Touch    string `json:"touch,omitempty"`    // instead of SQL: create this file
+	Hooks    string `json:"hooks,omitempty"`    // before the step: arm verifhook points, "point=kill@3;point=sleep(5)" (hits count from now)
 }
 
 // childResult is the outcome of one step.
@@ -305,6 +308,7 @@ func init() {
 					continue
 				}
 			}
+			armHooks(st.Hooks)
 			switch {
 			case st.WaitFile != "":
 				for k := 0; k < 60000; k++ {
@@ -345,6 +349,30 @@ func init() {
 		srv.Stop()
 		out.Close()
 		return 0
+	}
+}
+
+// armHooks arms verifhook points in this process; hit counting starts now.
+func armHooks(spec string) {
+	for _, part := range strings.Split(spec, ";") {
+		kv := strings.SplitN(strings.TrimSpace(part), "=", 2)
+		if len(kv) != 2 {
+			continue
+		}
+		a := verifhook.Action{}
+		act := kv[1]
+		if i := strings.LastIndex(act, "@"); i >= 0 {
+			fmt.Sscanf(act[i+1:], "%d", &a.Nth)
+			act = act[:i]
+		}
+		if strings.HasPrefix(act, "sleep(") {
+			var ms float64
+			fmt.Sscanf(act, "sleep(%f)", &ms)
+			a.Kind, a.Sleep = "sleep", time.Duration(ms*float64(time.Millisecond))
+		} else {
+			a.Kind = act
+		}
+		verifhook.Set(kv[0], a)
 	}
 }
 
